@@ -63,6 +63,22 @@ export Len (len)
 instance : Len (List α) := ⟨List.length⟩
 def is_empty [Len γ] (x : γ) : Bool := len x == 0
 
+/-- `HashMap<K, V>` / `BTreeMap`: an association list, newest binding first (iteration order is never relied on by
+    the translated functions: they only `get`, `insert`, `remove`, `contains_key`) -/
+abbrev HashMap (κ ν : Type) := List (κ × ν)
+abbrev HashSet (κ : Type) := List κ
+/-- `map.get(&k)` -/
+def get [BEq κ] (m : HashMap κ ν) (k : κ) : Option ν := (m.find? (fun p => p.1 == k)).map (·.2)
+def contains_key [BEq κ] (m : HashMap κ ν) (k : κ) : Bool := m.any (fun p => p.1 == k)
+/-- `map.insert(k, v);` as a statement (the returned old value is discarded) -/
+def insert_mut [BEq κ] (m : HashMap κ ν) (k : κ) (v : ν) : HashMap κ ν := (k, v) :: m.filter (fun p => !(p.1 == k))
+/-- `map.remove(&k);` as a statement -/
+def remove_mut [BEq κ] (m : HashMap κ ν) (k : κ) : HashMap κ ν := m.filter (fun p => !(p.1 == k))
+/-- `v.push(x);` on a field -/
+def push_mut (l : List α) (x : α) : List α := l ++ [x]
+def clear_mut (l : List α) : List α := []
+def clear (l : List α) : List α := []
+
 /-- `iter().filter(p)` -/
 def filter (l : List α) (p : α → Bool) : List α := l.filter p
 /-- `iter().count()` -/
@@ -101,6 +117,50 @@ def splitAux (c : Char) : Str → Str → List Str
 def split (s : Str) (c : Char) : List Str := splitAux c s []
 /-- `str::rsplit(c)`: the same pieces, last piece first -/
 def rsplit (s : Str) (c : Char) : List Str := (split s c).reverse
+/-- `format!("{}", x)` for the argument types that occur: text as it is, unsigned integers in decimal -/
+class Display (γ : Type) where
+  display : γ → Str
+export Display (display)
+instance : Display Str := ⟨id⟩
+instance : Display Nat := ⟨Nat.toDigits 10⟩
+/-- the pieces of a `format!` in order -/
+def concat (l : List Str) : Str := l.flatten
+
+/-- split around the LAST occurrence of `c`: `(before, after)`; `none` when `c` does not occur -/
+def splitLastAt (c : Char) (l : Str) : Option (Str × Str) :=
+  let r := l.reverse
+  match r.dropWhile (· ≠ c) with
+  | [] => none
+  | _ :: before => some (before.reverse, (r.takeWhile (· ≠ c)).reverse)
+/-- last component of a clean relative path text (no trailing `/`, no `.`/`..` components: the domain of the bisync
+    paths, which come from `strip_prefix` of scanned files) -/
+def lastComponent (p : Path) : Str := match splitLastAt '/' p with | some (_, n) => n | none => p
+/-- `Path::parent` on that domain: the text before the last `/`; the empty path for a single component; `None` for
+    the empty path -/
+def parent (p : Path) : Option Path :=
+  match splitLastAt '/' p with
+  | some (before, _) => some before
+  | none => if p.isEmpty then none else some []
+/-- `Path::file_stem` / `Path::extension` (std): split the file name at its last `.`; a name without `.`, or whose
+    only `.` is its first character, or `..`, has no extension and is its own stem -/
+def file_stem (p : Path) : Option Str :=
+  let n := lastComponent p
+  if n.isEmpty then none
+  else if n = ['.', '.'] then some n
+  else match splitLastAt '.' n with
+    | none => some n
+    | some (before, _) => if before.isEmpty then some n else some before
+def extension (p : Path) : Option Str :=
+  let n := lastComponent p
+  if n.isEmpty || n = ['.', '.'] then none
+  else match splitLastAt '.' n with
+    | none => none
+    | some (before, after) => if before.isEmpty then none else some after
+/-- `Path::join` with a relative second argument -/
+def join (p : Path) (n : Str) : Path := if p.isEmpty then n else p ++ '/' :: n
+/-- `Option::and_then` -/
+def and_then (o : Option α) (f : α → Option β) : Option β := o.bind f
+
 /-- `as_str()` -/
 class AsStr (γ : Type) where
   as_str : γ → Str
@@ -110,6 +170,7 @@ instance : AsStr Str := ⟨id⟩
 class ToStr (γ : Type) where
   to_str : γ → Option Str
 export ToStr (to_str)
+instance : ToStr Str := ⟨fun s => some s⟩
 def ends_with (s : Str) (c : Char) : Bool := s.getLast? == some c
 /-- `starts_with` (of `str` with a `char`; of `Path` with a `Path`: component-wise, see PreludeFilter) -/
 class StartsWith (γ δ : Type) where
